@@ -35,26 +35,41 @@ SPEC = dict(
                 "keyed fold, fold/reduce of a top-level bounded stream = fold_no_replay/reduce_no_replay, cross_singleton with a "
                 "top-level bounded singleton, join / anti_join / filter_not_in with a top-level bounded side = "
                 "join_multiset_half<'static,'tick> / anti_join<'tick,'static> / difference<'tick,'static>, singleton/optional "
-                "map and filter) that is well-kinded by the safe-API typing rules, and for "
+                "map and filter; added in review: KeyedStream::generator = Scan over HashMap<K,Option<A>> + FlatMap with its "
+                "Yield/Return/Break/Continue protocol (limit, enumerate, first), KeyedStream::entries, keyed reduce = "
+                "reduce_keyed<'static>, keyed streams with NoOrder values (merge_unordered of keyed streams) under keyed fold / "
+                "keyed reduce with a commutativity proof — the final map is shown to be a function of the value multiset, "
+                "`aux_kfold_perm` / `aux_kreduce_perm` —, and join of a top-level bounded with an unbounded stream read as the "
+                "unordered unbounded stream it is) that is well-kinded by the safe-API typing rules, and for "
                 "EVERY partition of the inputs into ticks, the accumulated output of the per-tick DFIR model equals the "
                 "stream-level meaning on the whole inputs (sequence for TotalOrder/keyed, multiset for NoOrder, last value "
                 "for singleton/optional/keyed singleton) — `program_eventually_deterministic`, by induction on the term; "
                 "`partition_independent` is the corollary for two arbitrary partitions. The model is tied to the code by "
                 "(T) re-extracting on every run which DFIR operator and lifetime emit_core chooses per HydroNode variant "
-                "(theorem `lowering_table_matches`) and (C) compiling 108 corpus programs (hand-written + generated "
+                "(theorem `lowering_table_matches`) and (C) compiling 140 corpus programs (hand-written + generated "
                 "compositions) through FlowBuilder::generate_embedded in build.rs, running them in-process tick by tick "
                 "under all / random partitions and diffing every tick's output and the final output with the Lean driver; "
-                "the property itself is checked on the real code against a plain-Rust-iterator reference and across partitions."),
+                "the property itself is checked on the real code against a plain-Rust-iterator reference and across partitions. "
+                "REFUTED clause (finding F282, known): hydro_lang types bounded.join(unbounded) as Bounded; the well-kindedness rule "
+                "of the theorem does not accept that claim (it kinds the join as an unbounded NoOrder stream), and "
+                "`joinBoundedLeft_typedBounded_refuted` proves on the concrete witness that the Bounded singleton built on it "
+                "(fold -> fold_no_replay, into_stream) emits a partition-dependent stream — reproduced on the real code "
+                "(corpus f282_*, oracle sigs …@foldb+joinlb)."),
     level_note=("Trusted / not modelled: the DFIR operators' per-tick behaviour is transcribed by hand from "
                 "dfir_lang/src/graph/ops/*.rs (tied only by correspondence); hash iteration order is canonicalised by "
                 "sorting for NoOrder / keyed-singleton outputs; tee is modelled as duplication of a deterministic sub-term; "
-                "merge_ordered, resolve_futures, networking, atomic regions, reduce/unique-by-key on NoOrder input, "
-                "cross_product, keyed reduce, sample/timeout, cycles (forward_ref) are outside the modelled fragment; "
+                "merge_ordered (takes a nondet! token, i.e. not a safe API), resolve_futures, networking, atomic regions, "
+                "Stream::reduce / unique-by-key on NoOrder input, cross_product, keyed sort/unique/chain, fold_early_stop with a "
+                "user closure, value_counts, reduce_watermark, sample/timeout, cycles (forward_ref) are outside the modelled "
+                "fragment; KeyedStream::first is observed through entries(); the `sKN` kind tag of the corpus (KeyedStream with "
+                "NoOrder values) is modelled as the unordered stream of its entries; Term.kind deliberately REJECTS the API's "
+                "Bounded typing of bounded.join(unbounded) (F282) — programs relying on it are outside the theorem and refuted; "
                 "the observer uses snapshot/assume_ordering (nondet) only to read the collections."),
     trusted_base=["per-tick semantics of DFIR operators (fold/reduce/scan/unique/enumerate/join_multiset/multiset_delta/"
                   "cross_singleton/fold_no_replay/chain) transcribed from dfir_lang/src/graph/ops, exercised by correspondence",
                   "harness/hv_hydro/gen_programs.py maps program terms to Rust programs (checked to be reproducible each run)",
                   "FxHashMap/FxHashSet iteration order canonicalised by sorting"],
+    # finding F282 (known): Stream::join types bounded.join(unbounded) as Bounded (known_findings.d/F282.json)
     # finding F281 (fixed in /repo fca9e7739ab): filter_not_in recorded Bounded metadata -> fold_no_replay on an unbounded stream
     assumptions=["closures passed to q!() are pure and total; commutativity proofs supplied by the user hold (Term.WF)",
                  "at least one tick runs; top-level bounded sources deliver all their data in the first tick",
